@@ -33,6 +33,10 @@ def main(tier, seed):
     # any value can be thrown (nil, false, 0, "", containers, classes, closures, instances): delivery and re-raising after finally
     # blocks must not depend on what the value is
     profcheck.run_scenarios(rep, "thrownvalues", scenarios.thrown_value_scenarios(), bins, PROP)
+    # handlers and finally blocks of LATER runs on the same interpreter: a run that ended with an uncaught exception (thrown at top level, through
+    # finally blocks, inside a fiber, inside a module) must leave nothing behind that makes a later try statement misbehave
+    import random
+    profcheck.run_scenarios(rep, "acrossruns", scenarios.snippet_scenarios(random.Random(seed + 8), 300 if q else 3000), bins, PROP)
     # handlers in the presence of the other control transfers: a fiber switch made from inside try / catch / finally blocks (with a
     # completion pending), and exceptions that cross a module boundary on their way to the handler (whose globals must be its own)
     profcheck.run_scenarios(rep, "switchcontexts", scenarios.fiber_switch_context_scenarios(), bins, PROP)
